@@ -6,16 +6,19 @@ import (
 	"flag"
 	"time"
 
+	eth2apiv1 "github.com/attestantio/go-eth2-client/api/v1"
 	"github.com/attestantio/go-eth2-client/spec/phase0"
 	specqbft "github.com/bloxapp/ssv-spec/qbft"
 	spectypes "github.com/bloxapp/ssv-spec/types"
 	tu "github.com/bloxapp/ssv-spec/types/testingutils"
 	"github.com/herumi/bls-eth-go-binary/bls"
 
+	"github.com/bloxapp/ssv/network/commons"
+	"github.com/bloxapp/ssv/operator/duties/dutystore"
 	"github.com/bloxapp/ssv/zz_verif/lib/hx"
 )
 
-var witnessFlag = flag.String("w", "", "witness set: round0 | fulldata | slotwrap | partialslot | partiallate | unserved | epochs | enr | honestrun")
+var witnessFlag = flag.String("w", "", "witness set: round0 | fulldata | slotwrap | partialslot | partiallate | unserved | epochs | enr | wrapper | weirdop | large | outside | honestrun")
 
 func genWitnesses(run *hx.Run, r *hx.Rng) {
 	w := world(4)
@@ -167,6 +170,57 @@ func genWitnesses(run *hx.Run, r *hx.Rng) {
 		}
 		doEntry(run, "subnets", []byte{0xc0}, true)
 		doEntry(run, "subnets", nil, false)
+	case "wrapper":
+		// seeded change Y-m03: the full ValidatePubsubMessage path (Descriptor fields, log, metrics labels) for QBFT message types
+		// 0..6 and two large ones, before and after the fork
+		fuzzSetup()
+		c := &Case{run: run, W: w}
+		for _, mt := range []uint64{0, 1, 2, 3, 4, 5, 6, 1 << 32, 1<<64 - 1} {
+			m := tu.TestingCommitMessageWithParams(ks.Shares[1], 1, 1, specqbft.Height(s), id, root)
+			m.FullData = nil
+			m.Message.MsgType = specqbft.MessageType(mt)
+			enc, _ := commons.EncodeNetworkMsg(kitSSV(w, spectypes.BNRoleAttester, m))
+			runFuzzTarget(run, "pubsub-full", append([]byte{0}, enc...))
+			wrapped, _, _ := c.envelope(enc, Env{Mode: "v", Op: 1})
+			runFuzzTarget(run, "pubsub-full", append([]byte{1}, wrapped...))
+		}
+	case "weirdop":
+		// seeded change Y-m08: signed envelopes naming operators whose REGISTERED key is not a usable RSA key (ECDSA / Ed25519 PKIX
+		// PEM, garbage DER, other PEM type, non-PEM, empty, non-base64): the signature check fails, nothing panics
+		m := tu.TestingCommitMessageWithParams(ks.Shares[1], 1, 1, specqbft.Height(s), id, root)
+		m.FullData = nil
+		msg := kitSSV(w, spectypes.BNRoleAttester, m)
+		enc, _ := msg.Encode()
+		for op := spectypes.OperatorID(weirdOpFirst); op <= weirdOpLast; op++ {
+			c := NewCase(run, w, false, "witness/weirdop")
+			c.ValidateSSV(msg, at, Env{Mode: "w", Op: op}, "witness:weirdop")
+			c2 := NewCase(run, w, true, "witness/weirdop-p2p")
+			data, _, _ := c2.envelope(enc, Env{Mode: "w", Op: op})
+			c2.ValidateP2P(data, topicsOf(msg)[0], at, "witness:weirdop-p2p")
+			runFuzzTarget(run, "pubsub-full", append([]byte{1}, data...))
+		}
+	case "large":
+		// seeded change Y-m04: committees of 10 and 13 with every operator active in one slot and round, then every per-signer limit again
+		largeCommitteeLimits(run, r, 0)
+		largeCommitteeLimits(run, r, 1)
+	case "outside":
+		// seeded change Y-m05: the validating node is not in the validator's committee: the proposer duty is stored with
+		// inCommittee = false (real dutystore Add); the honest proposal and prepare for that duty must be accepted
+		ds := dutystore.New()
+		c := NewCaseWithStore(run, w, ds, true, "witness/outside")
+		ds.Proposer.Add(phase0.Epoch(s/32), phase0.Slot(s), valIndex, &eth2apiv1.ProposerDuty{Slot: phase0.Slot(s), ValidatorIndex: valIndex}, false)
+		c.AnnounceDuties([]uint64{s, s + 1}, nil)
+		l := leaderOf(w, s, 1)
+		p := tu.TestingProposalMessageWithParams(ks.Shares[l], l, 1, specqbft.Height(s), root, nil, nil)
+		c.Honest = 2
+		c.ValidateSSV(kitSSV(w, spectypes.BNRoleProposer, p), at, Env{Mode: "n"}, "c10:witness-outside")
+		m := tu.TestingPrepareMessageWithParams(ks.Shares[2], 2, 1, specqbft.Height(s), id, root)
+		m.FullData = nil
+		c.Honest = 2
+		c.ValidateSSV(kitSSV(w, spectypes.BNRoleProposer, m), at.Add(time.Millisecond), Env{Mode: "n"}, "c10:witness-outside")
+		c.Honest = 0
+		p1 := tu.TestingProposalMessageWithParams(ks.Shares[leaderOf(w, s+1, 1)], leaderOf(w, s+1, 1), 1, specqbft.Height(s+1), root, nil, nil)
+		c.ValidateSSV(kitSSV(w, spectypes.BNRoleProposer, p1), w.SlotStart(s+1).Add(time.Second), Env{Mode: "n"}, "witness:no-duty-at-this-slot")
 	case "honestrun":
 		// one complete honest run with a prepared round change (C10)
 		t := BuildTrace(w, spectypes.BNRoleAttester, s+2, scenarios[4], r)
